@@ -261,6 +261,21 @@ def stress(run, tsc):
                         conf = dict(n1d=n1d, nthread=nthread, coord=coord, npartition=None, npartition_used=None)
                         run.violation('compiled-parallel-differs-from-serial', dict(n1d=n1d, nthread=nthread, coord=coord, rep=r, cells_differing=nd, mass_parallel=float(out.sum()), mass_serial=float(ref.sum())))
                         break
+    # thread counts that do not divide the particle count, with counts for which N/nthread is not exact in floating point
+    for nthread, Np in ((11, 100000), (7, 250003), (13, 250001), (14, 100003), (15, 100001), (3, 100001), (6, 99999)):
+        n1d = 32
+        box = float(n1d)
+        pos = lattice_particles(rng, n1d, 8, 0, box, Np)
+        w = rng.integers(1, 4, Np).astype(np.float64)
+        with warnings.catch_warnings():
+            warnings.simplefilter('ignore')
+            ref = tsc.tsc_parallel(pos.copy(), np.zeros((n1d, n1d, n1d), dtype=np.float64), box, weights=w, nthread=1, wrap=False)
+            out = tsc.tsc_parallel(pos.copy(), np.zeros((n1d, n1d, n1d), dtype=np.float64), box, weights=w, nthread=nthread, wrap=False, sort=bool(Np % 2))
+        run.ev()
+        run.count('stress_runs')
+        run.nt(('stress-chunks', nthread, Np))
+        if not np.array_equal(out, ref):
+            run.violation('compiled-parallel-differs-from-serial', dict(n1d=n1d, nthread=nthread, particles=Np, cells_differing=int((out != ref).sum()), mass_parallel=float(out.sum()), mass_serial=float(ref.sum())))
     # the same position / weight array *objects* reused for a second deposit after being overwritten in place
     for n1d, nthread in confs[:3]:
         box = float(n1d)
